@@ -31,7 +31,7 @@ Definition qmax_list (l : list Q) : Q := match l with [] => 0 | x :: t => qmax_f
 Variable A : Type.   (* event identity *)
 
 (* a proposed event: (id, weight, acceptance uniform);
-   an accepted event: (id, weight, bound it currently stands accepted with) *)
+   an accepted event: (id, weight, bound it was accepted with - bookkeeping of the model only) *)
 Definition ev_id (e : A * Q * Q) : A := fst (fst e).
 Definition ev_w (e : A * Q * Q) : Q := snd (fst e).
 Definition ev_u (e : A * Q * Q) : Q := snd e.
@@ -62,8 +62,10 @@ Record ms_state := {
 Definition thin_keep (r newM M1 : Q) : bool := Qltb (r * newM / M1) 1.
 
 (* test_N = min(int((N - N_gen) / eff * 1.1), N_max) *)
+Definition test_N_raw (N ngen : nat) (eff : Q) : Q :=
+  inject_Z (Z.of_nat N - Z.of_nat ngen) / eff * (11 # 10).
 Definition test_N (N ngen : nat) (eff : Q) (maxN : Z) : Z :=
-  Z.min (Qfloor (inject_Z (Z.of_nat N - Z.of_nat ngen) / eff * (11 # 10))) maxN.
+  Z.min (Qfloor (test_N_raw N ngen eff)) maxN.
 
 Definition eff_of (ngen ntotal : nat) : Q :=
   inject_Z (Z.of_nat ngen + 1) / inject_Z (Z.of_nat ntotal + 1).
@@ -75,8 +77,7 @@ Definition ms_step (st : ms_state) (b : batch) : ms_state :=
   let M1 := match ms_M st with None => newM * (11 # 10) | Some m => m end in
   let ntot := (ms_ntotal st + length (b_evs b))%nat in
   if Qltb M1 newM && (0 <? ms_chunks st)%nat then
-    let kept := map (fun er => (ev_id (fst er), ev_w (fst er), newM))
-                    (filter (fun er => thin_keep (snd er) newM M1) (combine (ms_all st) (b_thin b))) in
+    let kept := map fst (filter (fun er => thin_keep (snd er) newM M1) (combine (ms_all st) (b_thin b))) in
     let ng := (length kept + length data)%nat in
     {| ms_M := Some (newM * (105 # 100)); ms_all := kept ++ data; ms_chunks := 2;
        ms_ngen := ng; ms_ntotal := ntot; ms_eff := eff_of ng ntot |}
@@ -102,10 +103,10 @@ Definition multi_sampling (N : nat) (M0 : option Q) (force : bool) (bs : list ba
   ((if force then firstn N (ms_all st) else ms_all st), st).
 
 (* batch sizes GenTest asks for along the run (compared with what the code asked for) *)
-Fixpoint ms_requests (N : nat) (maxN : Z) (st : ms_state) (bs : list batch) : list Z :=
+Fixpoint ms_requests (N : nat) (st : ms_state) (bs : list batch) : list Q :=
   if (ms_ngen st <? N)%nat then
-    test_N N (ms_ngen st) (ms_eff st) maxN ::
-      match bs with [] => [] | b :: bs' => ms_requests N maxN (ms_step st b) bs' end
+    test_N_raw N (ms_ngen st) (ms_eff st) ::
+      match bs with [] => [] | b :: bs' => ms_requests N (ms_step st b) bs' end
   else [].
 
 End Bookkeeping.
@@ -117,10 +118,15 @@ Fixpoint nat_list_eqb (a b : list nat) : bool :=
   | x :: a', y :: b' => Nat.eqb x y && nat_list_eqb a' b'
   | _, _ => false
   end.
-Fixpoint z_list_eqb (a b : list Z) : bool :=
-  match a, b with
+(* requested batch sizes: the code evaluates (N - N_gen) / eff * 1.1 in floating point before
+   int(); the exact value may sit on an integer, so both neighbours within 1e-9 are accepted *)
+Definition req_ok (maxN : Z) (raw : Q) (r : Z) : bool :=
+  Z.eqb r (Z.min (Qfloor (raw + (1 # 1000000000))) maxN)
+  || Z.eqb r (Z.min (Qfloor (raw - (1 # 1000000000))) maxN).
+Fixpoint reqs_ok (maxN : Z) (raws : list Q) (rs : list Z) : bool :=
+  match raws, rs with
   | [], [] => true
-  | x :: a', y :: b' => Z.eqb x y && z_list_eqb a' b'
+  | x :: raws', r :: rs' => req_ok maxN x r && reqs_ok maxN raws' rs'
   | _, _ => false
   end.
 Definition Qclose (x y rtol : Q) : bool := Qle_bool (Qabs (x - y)) (rtol * Qabs y).
@@ -132,7 +138,7 @@ Definition ms_case_ok (N : nat) (maxN : Z) (M0 : option Q) (force : bool) (bs : 
   let r := multi_sampling nat N M0 force bs in
   nat_list_eqb (map (ev_id nat) (fst r)) ids
   && optQ_close (ms_M nat (snd r)) finalM (1 # 1000000000000)
-  && z_list_eqb (firstn (length reqs) (ms_requests nat N maxN (ms_init nat M0) bs)) reqs.
+  && reqs_ok maxN (ms_requests nat N (ms_init nat M0) bs) reqs.
 
 (* ------------------------------------------------------------------------------------ *)
 (* Part B: inverse-transform samplers over R                                             *)
@@ -160,10 +166,10 @@ Fixpoint cal_coeffs (eps : R) (xs ys : list R) : list lbin :=
 
 (* int_x = 0.5 * k * (x1**2 - x0**2) + b * (x1 - x0) *)
 Definition bin_int (bn : lbin) : R :=
-  0.5 * lk bn * (lx1 bn * lx1 bn - lx0 bn * lx0 bn) + lb bn * (lx1 bn - lx0 bn).
+  (1 / 2) * lk bn * (lx1 bn * lx1 bn - lx0 bn * lx0 bn) + lb bn * (lx1 bn - lx0 bn).
 (* 0.5 * k * (x*x - x1*x1) + b * (x - x1)   (+ int_step[bin]) *)
 Definition bin_cum (bn : lbin) (x : R) : R :=
-  0.5 * lk bn * (x * x - lx1 bn * lx1 bn) + lb bn * (x - lx1 bn).
+  (1 / 2) * lk bn * (x * x - lx1 bn * lx1 bn) + lb bn * (x - lx1 bn).
 (* y = sqrt(b**2 + k*(k*x1**2 + 2*b*x1 + 2*d)) - b ; y2 = d + b*x1 ;
    where(k == 0, y2, y) / where(k == 0, b, k) *)
 Definition bin_solve (bn : lbin) (d : R) : R :=
